@@ -694,13 +694,19 @@ func (s *Server) filterBatchLocked(next jmessages) jmessages {
 		// the sequencing barrier (see #78).
 		//
 		// Note, however, if it does NOT correspond to a known push-call, keep it
-		// in the batch so it can be serviced as an error.
+		// in the batch so it can be serviced as an error (unless push is
+		// enabled, in which case stray replies are expected; see below).
 		id := string(fixID(req.ID))
 		if s.call[id] != nil {
 			rsp := s.call[id]
 			delete(s.call, id)
 			rsp.ch <- req
 			s.log("Received response for callback %q", id)
+		} else if s.allowP && req.M == "" && (req.R != nil || req.E != nil) {
+			// A reply that matches no pending push-call is late, duplicated or
+			// unsolicited. Discard it: answering would send the client an error
+			// bearing an ID it may be using for one of its own calls.
+			s.log("Discarding response for unknown callback %q", id)
 		} else {
 			keep = append(keep, req)
 		}
